@@ -79,6 +79,16 @@ Theorem C03_no_downgrade_partial : forall i e,
 Proof. exact no_downgrade_partial. Qed.
 Print Assumptions C03_no_downgrade_partial.
 
+(* a failed expectThat / force_failure fails the test on EVERY path - whether or not setUp returned,
+   whatever was raised besides (a later skip included), inside F2 as well - unless the user inserted
+   a handler that maps AssertionError to something else *)
+Theorem C03_forced_fails : forall i,
+  skipped (i_prog i) = false -> forced (i_prog i) = true ->
+  is_failure_or_error (i_prog i) (Exc CFail None) = true ->
+  exists o, model i = {| o_outs := [o]; o_ok := false |} /\ unsuccessful o = true.
+Proof. exact forced_fails. Qed.
+Print Assumptions C03_forced_fails.
+
 (* the facts about TestCase.exception_handlers of the tree under test that the proofs use,
    re-checked against the regenerated table on every run: whatever the order of the entries,
    looking a class up in the table gives the standard mapping; the catch-all is last *)
@@ -105,4 +115,14 @@ Example C03_example :
   /\ finding_F2 (mk [] [ARaise (Exc CValueError None)] [AAssert []] []) = false
   /\ model (mk [ACleanup 10 [AInsertHandler CValueError OXFail]] [ARaise (Exc CValueError None)] [] [])
      = {| o_outs := [OXFail]; o_ok := true |}.
+Proof. vm_compute. repeat split. Qed.
+
+(* non-vacuity of C03_forced_fails (the shape of F21): an expectThat mismatch in setUp followed by
+   skipTest, and one in a cleanup run after setUp failed with an expected failure *)
+Example C03_example_forced :
+  let mk su := {| i_prog := {| p_skip := None; p_xfail := false; p_setup := (1, su); p_up_setup := true;
+                               p_body := (2, []); p_teardown := (3, []); p_up_teardown := true; p_handlers := [] |} |} in
+  model (mk [AExpect []; ARaise (Exc CSkip (Some 1))]) = {| o_outs := [OFail]; o_ok := false |}
+  /\ forced (i_prog (mk [AExpect []; ARaise (Exc CSkip (Some 1))])) = true
+  /\ model (mk [ACleanup 10 [AForce]; AExpectFailure 1 (Some (Exc CFail None))]) = {| o_outs := [OFail]; o_ok := false |}.
 Proof. vm_compute. repeat split. Qed.
